@@ -88,6 +88,8 @@ PROGRAMS = {
     "zero_both": "%u = arith.addi %zero, %zero : i32\n %v = arith.addi %a, %u : i32\n %r = arith.muli %v, %b : i32\n func.return %r : i32",
     "one_one": "%u = arith.muli %one, %one : i32\n %v = arith.muli %a, %u : i32\n %r = arith.addi %v, %b : i32\n func.return %r : i32",
     "use_before_merge": "%m = arith.muli %b, %one : i32\n %u = arith.subi %a, %m : i32\n %v = arith.subi %a, %b : i32\n %r = arith.muli %u, %v : i32\n func.return %r : i32",
+    "cmp_preds": "%s = arith.addi %a, %zero : i32\n %l = arith.cmpi slt, %s, %b : i32\n %g = arith.cmpi sgt, %s, %b : i32\n %x = arith.select %l, %a, %b : i32\n %r = arith.select %g, %x, %one : i32\n func.return %r : i32",
+    "cmp_preds_mul": "%s = arith.muli %a, %one : i32\n %l = arith.cmpi ult, %s, %b : i32\n %g = arith.cmpi uge, %s, %b : i32\n %q = arith.cmpi ult, %a, %b : i32\n %x = arith.select %l, %a, %b : i32\n %y = arith.select %g, %x, %zero : i32\n %r = arith.select %q, %y, %x : i32\n func.return %r : i32",
     "two_results": "%u = arith.addi %a, %zero : i32\n %v = arith.muli %b, %one : i32\n %r = arith.addi %u, %v : i32\n func.return %r : i32",
 }
 
